@@ -424,7 +424,7 @@ def gen(rng: random.Random, tier: str):
                             yield mk_case(b, fac, pat, 48, N=N, periods=periods, L=L, posmode=posmode,
                                           order=order)
     # ---- random histories
-    nrand = 1020 if quick else 1500
+    nrand = 900 if quick else 1100
     for i in range(nrand):
         b = Builder()
         fac = rng.choice(FACTORS)
@@ -459,7 +459,7 @@ def gen(rng: random.Random, tier: str):
         yield mk_case(b, fac, pat, 64, L=L, kind="random")
     # ---- long queues (lengths up to 200) after a history with drains
     big = [(40, 1), (200, 0)] if quick else [
-        (50, 1), (100, 1), (150, 0), (200, 1), (200, 0)]
+        (50, 1), (100, 1), (150, 0), (200, 1)]
     for L, posmode in big:
         b = Builder()
         b.busy(2, rng.choice([15, 33]), "pa")
